@@ -394,6 +394,21 @@ func runC14(r *Run) {
 				r.Fail("a NOERROR / NXDOMAIN reply arrived while the context was alive, but it is not what the call returned", desc)
 			}
 		}
+		// a helper that was going to deliver a good answer must not have been cut short by anything but its own 5 s budget
+		for _, cl := range calls {
+			if cl.outcome != "g" && cl.outcome != "x" {
+				continue
+			}
+			select {
+			case <-cl.finished:
+				if cl.endedBy == "context" {
+					desc["upstream"] = cl.up.idx
+					desc["its_context_had"] = cl.ctxLimit.String()
+					r.Fail("the exchange with an upstream that was about to answer NOERROR / NXDOMAIN was cancelled within milliseconds (not by its 5-second budget): another upstream's failure masked a good answer", desc)
+				}
+			default:
+			}
+		}
 		hasNever, ctxEnded := false, false
 		for _, cl := range calls {
 			if cl.outcome == "never" {
